@@ -91,7 +91,147 @@ func checkDeliver(c *Ctx, res *report.Result, f *ssa.Function, name, getChan, fw
 			}
 		}
 	}
+	// the hand-over is the function's own select: every select with a send arm sits in f or in a closure that f calls
+	// and waits for - not in a goroutine (or deferred call) that is still running when the result has been reported
+	nHand, async := 0, false
+	for _, a := range append([]*ssa.Function{f}, flow.AnonFuncsDeep(f)...) {
+		for _, sel := range selectsOf(a) {
+			hasSend := false
+			for _, state := range sel.States {
+				if state.Dir == types.SendOnly {
+					hasSend = true
+				}
+			}
+			if !hasSend {
+				continue
+			}
+			nHand++
+			how := ""
+			for fn := a; fn != f && fn != nil && how == ""; fn = fn.Parent() {
+				how = "the closure holding the select is never called directly"
+				for _, b := range fn.Parent().Blocks {
+					for _, ins := range b.Instrs {
+						ci, isC := ins.(ssa.CallInstruction)
+						if !isC {
+							continue
+						}
+						if cal, _ := closureFn(ci.Common().Value); cal != fn {
+							continue
+						}
+						switch ins.(type) {
+						case *ssa.Call:
+							how = ""
+						case *ssa.Go:
+							how = "the select runs in a goroutine of its own: when the function gives up waiting and reports the message undelivered the goroutine is still trying, its send can complete later, and the caller's retry delivers the message a second time"
+						case *ssa.Defer:
+							how = "the select runs in a deferred call, after the result has been decided"
+						}
+					}
+				}
+			}
+			res.Check(how == "", rule, fmt.Sprintf("%s: hand-over select #%d is completed or abandoned before the result is reported", name, nHand), instrPos(c.Prog, sel), "called synchronously", how)
+			if how != "" {
+				async = true
+			}
+		}
+	}
+	if nHand == 0 {
+		res.Undec(rule, name+": hand-over select", fnPos(c.Prog, f), "no select with a send arm found")
+	}
+	// result form: `ok := func() bool { select { case ch <- m: return true ... } }()`
+	var deliveredCall *ssa.Call
 	if delivered == nil {
+		for _, call := range flow.Calls(f) {
+			cl, isCall := call.(*ssa.Call)
+			cal, _ := closureFn(call.Common().Value)
+			if !isCall || cal == nil || cal.Signature.Results().Len() != 1 || !types.Identical(cal.Signature.Results().At(0).Type(), types.Typ[types.Bool]) {
+				continue
+			}
+			var arms []*ssa.BasicBlock
+			for _, sel := range selectsOf(cal) {
+				for i, state := range sel.States {
+					if state.Dir == types.SendOnly {
+						if arm := selectArmBlock(sel, i); arm != nil {
+							arms = append(arms, arm)
+						}
+					}
+				}
+			}
+			if len(arms) == 0 {
+				continue
+			}
+			okRet, whyRet := true, ""
+			inArm := func(b *ssa.BasicBlock) bool {
+				for _, arm := range arms {
+					if arm == b || arm.Dominates(b) {
+						return true
+					}
+				}
+				return false
+			}
+			cells := map[*ssa.Alloc]bool{}
+			for _, b := range cal.Blocks {
+				ret, isR := b.Instrs[len(b.Instrs)-1].(*ssa.Return)
+				if !isR {
+					continue
+				}
+				v, isC := flow.ConstBool(flow.Ret(ret)[0])
+				if isC && !v {
+					continue
+				}
+				if !isC {
+					// a named or defer-spilled result: go/ssa stores the value into a cell, runs the defers and reloads it
+					if ld, isL := ret.Results[0].(*ssa.UnOp); isL && ld.Op == token.MUL {
+						if al, isA := ld.X.(*ssa.Alloc); isA && al.Parent() == cal {
+							cells[al] = true
+							continue
+						}
+					}
+					okRet, whyRet = false, "the guarded-send closure returns a value that is not a constant"
+				} else if !inArm(b) {
+					okRet, whyRet = false, "the guarded-send closure returns true outside the arm in which the channel send completed"
+				}
+			}
+			for al := range cells {
+				for _, fn := range append([]*ssa.Function{cal}, flow.AnonFuncsDeep(cal)...) {
+					for _, b := range fn.Blocks {
+						for _, ins := range b.Instrs {
+							st, isS := ins.(*ssa.Store)
+							if !isS {
+								continue
+							}
+							target := st.Addr
+							if fv, isF := target.(*ssa.FreeVar); isF {
+								target = freeVarBinding(fv)
+							}
+							if target != ssa.Value(al) {
+								continue
+							}
+							if v, isC := flow.ConstBool(st.Val); isC && !v {
+								continue
+							}
+							if fn != cal || !inArm(b) {
+								okRet, whyRet = false, "the closure's result is set to something other than false outside the arm in which the channel send completed (a recovered panic, or the shutdown arm, then reports a delivery)"
+							}
+						}
+					}
+				}
+			}
+			deliveredCall = cl
+			res.Check(okRet, rule, name+": delivered is set only when the local send completed", fnPos(c.Prog, f), "the closure returns true only from the send arm of the select", whyRet)
+		}
+	}
+	isLocalFlag := func(v ssa.Value) bool {
+		if deliveredCall != nil {
+			return flow.ResolveLoad(v) == ssa.Value(deliveredCall) || v == ssa.Value(deliveredCall)
+		}
+		ld, isL := v.(*ssa.UnOp)
+		return isL && delivered != nil && ld.X == ssa.Value(delivered)
+	}
+	if delivered == nil && deliveredCall == nil && async {
+		return
+	}
+	if delivered == nil && deliveredCall == nil {
 		// without a flag that only the send arm sets, the code after the guarded-send closure cannot tell a completed
 		// hand-off from the closure's other outcomes (shutdown arm, recovered panic of a send on a closed channel)
 		for _, call := range flow.Calls(f) {
@@ -126,55 +266,57 @@ func checkDeliver(c *Ctx, res *report.Result, f *ssa.Function, name, getChan, fw
 		res.Undec(rule, name+": delivered flag", fnPos(c.Prog, f), "no captured bool flag set by the guarded-send closure found")
 		return
 	}
-	// stores of true to the cell: only inside the closure, in the send arm
-	okStore := false
-	why := "the delivered flag is never set"
-	for _, a := range flow.AnonFuncsDeep(f) {
-		for _, b := range a.Blocks {
-			for _, ins := range b.Instrs {
-				st, ok := ins.(*ssa.Store)
-				if !ok {
-					continue
-				}
-				fv, ok := st.Addr.(*ssa.FreeVar)
-				if !ok || freeVarBinding(fv) != ssa.Value(delivered) {
-					continue
-				}
-				if v, isC := flow.ConstBool(st.Val); !isC || !v {
-					continue
-				}
-				// block must be the arm of a send state
-				sels := selectsOf(a)
-				inSendArm := false
-				for _, s := range sels {
-					for i, state := range s.States {
-						if state.Dir == types.SendOnly {
-							arm := selectArmBlock(s, i)
-							if arm != nil && (arm == b || arm.Dominates(b)) {
-								inSendArm = true
-								// the value sent is the routed message/ack parameter
+	if delivered != nil {
+		// stores of true to the cell: only inside the closure, in the send arm
+		okStore := false
+		why := "the delivered flag is never set"
+		for _, a := range flow.AnonFuncsDeep(f) {
+			for _, b := range a.Blocks {
+				for _, ins := range b.Instrs {
+					st, ok := ins.(*ssa.Store)
+					if !ok {
+						continue
+					}
+					fv, ok := st.Addr.(*ssa.FreeVar)
+					if !ok || freeVarBinding(fv) != ssa.Value(delivered) {
+						continue
+					}
+					if v, isC := flow.ConstBool(st.Val); !isC || !v {
+						continue
+					}
+					// block must be the arm of a send state
+					sels := selectsOf(a)
+					inSendArm := false
+					for _, s := range sels {
+						for i, state := range s.States {
+							if state.Dir == types.SendOnly {
+								arm := selectArmBlock(s, i)
+								if arm != nil && (arm == b || arm.Dominates(b)) {
+									inSendArm = true
+									// the value sent is the routed message/ack parameter
+								}
 							}
 						}
 					}
-				}
-				if inSendArm {
-					okStore = true
-				} else {
-					okStore, why = false, "delivered is set outside the arm in which the channel send completed"
-				}
-			}
-		}
-	}
-	for _, b := range f.Blocks {
-		for _, ins := range b.Instrs {
-			if st, ok := ins.(*ssa.Store); ok && st.Addr == ssa.Value(delivered) {
-				if v, isC := flow.ConstBool(st.Val); isC && v {
-					okStore, why = false, "delivered is set to true outside the guarded send"
+					if inSendArm {
+						okStore = true
+					} else {
+						okStore, why = false, "delivered is set outside the arm in which the channel send completed"
+					}
 				}
 			}
 		}
+		for _, b := range f.Blocks {
+			for _, ins := range b.Instrs {
+				if st, ok := ins.(*ssa.Store); ok && st.Addr == ssa.Value(delivered) {
+					if v, isC := flow.ConstBool(st.Val); isC && v {
+						okStore, why = false, "delivered is set to true outside the guarded send"
+					}
+				}
+			}
+		}
+		res.Check(okStore, rule, name+": delivered is set only when the local send completed", fnPos(c.Prog, f), "store in the send arm of the select", why)
 	}
-	res.Check(okStore, rule, name+": delivered is set only when the local send completed", fnPos(c.Prog, f), "store in the send arm of the select", why)
 
 	// forward call
 	fwdCalls := flow.FindCalls(f, func(cc *ssa.CallCommon) bool { return flow.IsCallTo(cc, proxyPkg, "intraProxyManager", fwd) })
@@ -203,7 +345,7 @@ func checkDeliver(c *Ctx, res *report.Result, f *ssa.Function, name, getChan, fw
 			nTrue++
 			byLocal := false
 			for _, g := range flow.NormGuards(flow.Guards(b)) {
-				if ld, isL := g.Cond.(*ssa.UnOp); isL && ld.X == ssa.Value(delivered) && g.Side {
+				if g.Side && isLocalFlag(g.Cond) {
 					byLocal = true
 				}
 			}
@@ -222,7 +364,7 @@ func checkDeliver(c *Ctx, res *report.Result, f *ssa.Function, name, getChan, fw
 		if iff == nil {
 			continue
 		}
-		if ld, isL := iff.Cond.(*ssa.UnOp); isL && ld.X == ssa.Value(delivered) {
+		if isLocalFlag(iff.Cond) {
 			if flow.ReachBlock(b.Succs[0], fc.Block(), nil) {
 				double = true
 			}
